@@ -587,9 +587,9 @@ class NumpyArrayType(ContentType):
         lookup.sharedptrs[pos] = lookup.sharedptrs_hold[pos].ptr()
         self.form_fill_identities(pos, layout, lookup)
 
-        lookup.original_positions[pos + self.ARRAY] = ak.nplike.of(layout).asarray(
+        lookup.original_positions[pos + self.ARRAY] = ak.nplike.of(
             layout
-        )
+        ).ascontiguousarray(layout)
         lookup.arrayptrs[pos + self.ARRAY] = lookup.original_positions[
             pos + self.ARRAY
         ].ctypes.data
